@@ -827,9 +827,9 @@ def c14_lab(k):
     lab.I.intercept['compute_attractor_states'] = lab._attractors
     return lab
 
-def classify(I, ctx, chars, present, k, netvars=('v0', 'v1')):
+def classify(I, ctx, chars, present, k, netvars=('v0', 'v1'), extended=True):
     """expected outcome of the string entry points: ('err', reason) | ('ok', tree)"""
-    try: tree = R.parse(I, chars, True)
+    try: tree = R.parse(I, chars, extended)
     except R.Reject as e: return ('err', 'syntax: ' + str(e))
     ok, res, depth = oracle_rename(ctx, tree, list(netvars))
     if not ok: return ('err', res)
@@ -851,8 +851,8 @@ def _labels_of(t):
     for c in t[1:]: out += _labels_of(c)
     return out
 
-C14_EXT = ['%w%', '!{x} in %d%: AX {x}', '3{x} in %d%: @{x}: (%w% & EF {x})', 'V{x}: !{y}: 3{z}: ({x} | {y} | {z} | %w%)', 'v0 & ~v1', '!{x}: !{y} in %d%: ({x} & {y})', 'EX %d%', '!{x} in %w%: %d%']
-C14_TEMPLATES = ['!{x}: AG EF {x}', '3{x} in %d%: @{x}: (v0 & AX {x})', '(v0 EU ~v1) <=> %w%', 'V{a}: !{b}: ({a} | AF {b})', '\\bind {x}: EX (%w% ^ {x})', 'AG (v0 => EF true)']
+C14_EXT = ['(!{a}: AX {a}) & (V{b}: {b}) & (3{c}: @{c}: v0)', '!{a}: (3{b}: {b}) | (3{c}: !{e}: {c} & {e})', '%w%', '!{x} in %d%: AX {x}', '3{x} in %d%: @{x}: (%w% & EF {x})', 'V{x}: !{y}: 3{z}: ({x} | {y} | {z} | %w%)', 'v0 & ~v1', '!{x}: !{y} in %d%: ({x} & {y})', 'EX %d%', '!{x} in %w%: %d%']
+C14_TEMPLATES = ['(!{a}: AX {a}) | (3{b}: @{b}: EF {b})', '!{x}: AG EF {x}', '3{x} in %d%: @{x}: (v0 & AX {x})', '(v0 EU ~v1) <=> %w%', 'V{a}: !{b}: ({a} | AF {b})', '\\bind {x}: EX (%w% ^ {x})', 'AG (v0 => EF true)']
 
 def sc_c14(ctx, p):
     k = p['k']
@@ -879,14 +879,15 @@ def sc_c14(ctx, p):
     try:
         fs = RVec([RStr(cs)])
         from .mirsym import biomodel
-        r = I.run(I.fn('model_check_multiple_extended_formulae'), [fs, Ptr(Cell(biomodel.GraphObj(lab.M))), Ptr(Cell(lab.context_map(present)))])
+        if p.get('entry') == 'plain': r = I.run(I.fn('model_check_multiple_formulae'), [fs, Ptr(Cell(biomodel.GraphObj(lab.M)))])
+        else: r = I.run(I.fn('model_check_multiple_extended_formulae'), [fs, Ptr(Cell(biomodel.GraphObj(lab.M))), Ptr(Cell(lab.context_map(present)))])
         got = 'ok' if r.variant == 0 else 'err'
         msg = '' if r.variant == 0 else show(r.fields[0].chars)
     except Panic as e:
         if not ctx.feasible(): raise Infeasible()
-        out.update({'ok': False, 'why': 'panic: ' + str(e)[:200], 'text': concretize(ctx.model(), cs), 'k': k, 'present': present}); return out
-    exp = classify(I, ctx, cs, present, k)
-    out['cls'] = exp[0]
+        out.update({'ok': False, 'why': 'panic: ' + str(e)[:200], 'text': concretize(ctx.model(), cs), 'k': k, 'present': present, 'entry': p.get('entry', 'ext')}); return out
+    exp = classify(I, ctx, cs, present, k, extended=p.get('entry') != 'plain')
+    out['cls'] = exp[0]; out['entry'] = p.get('entry', 'ext')
     if got != exp[0]:
         out.update({'ok': False, 'why': f'entry point answers {got} ({msg}) but the input is classified {exp[0]} ({exp[1] if exp[0] == "err" else "valid"})', 'text': concretize(ctx.model(), cs), 'k': k, 'present': present})
     return out
